@@ -31,7 +31,14 @@ RULE = ("per operation (3 generators, 6 smoothers, initial plate, combination fi
         "36 option combinations per quick run (all generator x smoother pairs, 8 targeted initial-generator combinations; all 3x4x7 in the thorough "
         "tier), one recording generator injected through get_prng_from_seed_argument, stage markers around the initial generator / generator / "
         "smoother / hold-out, outputs read with h5py and compared with Model/PrepPipeline.lean; end-to-end oracles on the files (conservation vs a "
-        "reference combination filter, test fully observed + per-plate counts, shared mappings, initial plate covers, single-sample unobserved plates).")
+        "reference combination filter, test fully observed + per-plate counts, shared mappings, initial plate covers, single-sample unobserved plates)."
+        " CHECKLIST items 10-14: every operation also runs on 5 same-size TEMPORARY screens built so that the next screen gets the freed "
+        "address (id() collision observed and counted), then on the input; history cases call op(x, other seed) before op(x, seed) and compare "
+        "output, draw trace, heap trace and generator state with a fresh object; pipeline output paths pre-filled with another screen; 128/129 and "
+        ">= 257 generated plates, hold-out from a plate of 255-257 rows, a 257-260 row / >= 128 treatment-id screen through load -> main -> save; "
+        "--holdout-fraction omitted / 0.05 / 0.25. Oracles fire only for clauses of the property text; everything else the harness pins down (row order, "
+        "plate labels of the input relabelled in place, reused-vs-fresh differences, id bookkeeping, PYTHONHASHSEED dependence, mappings, which plates a "
+        "size smoother retains) is a tie with the model (no replay).")
 
 
 def run(ctx, res):
